@@ -31,6 +31,10 @@ type OrE struct{ Items []Expr }
 type NotE struct{ Item Expr }
 type IfE struct{ If, Then, Else Expr } // Else may be nil
 
+// RawE is an expression value given directly as YAML (e.g. an inline `rego:` block).
+type RawE struct{ Map *YMap }
+
+func (RawE) exprNode() {}
 func (PC) exprNode()   {}
 func (AndE) exprNode() {}
 func (OrE) exprNode()  {}
@@ -81,6 +85,8 @@ func ExprYAML(e Expr) *YMap {
 		if v.Else != nil {
 			m.Set("else", ExprYAML(v.Else))
 		}
+	case RawE:
+		return v.Map
 	default:
 		panic(fmt.Sprintf("unknown expr %T", e))
 	}
